@@ -362,6 +362,13 @@ impl VM {
                         )));
                     }
                     let [ip, num_locals] = obj.as_function();
+                    if num_args != obj.function_arity() {
+                        return Err(Error::ArgumentError(format!(
+                            "functie verwacht {} argumenten, maar kreeg er {}",
+                            obj.function_arity(),
+                            num_args
+                        )));
+                    }
 
                     // Make room on the stack for any local variables defined inside this function
                     for _ in 0..num_locals - num_args as u32 {
